@@ -87,6 +87,34 @@ void h_decodeAddress(void) {
               note='every buffer/position/attribute length, transaction id of 0..32 bytes; the 16-iteration XOR loop fully unwound (unwinding assertion on)')
     proofs.append(labelled(p, 'decodeAddress', sp_da))
     alltext += c
+    # ---------------------------------------------------------------- lemma: decodeAddress o encodeAddress = identity (contracts only)
+    unroll = ' '.join('%sB[%d] = (char)(unsigned char)EA_BYTE(%d, type, a.proto, a.v4, a.v6.c, port, &xid);' % ('if (a.proto == 1) ' if j >= 12 else '', j, j) for j in range(24))
+    c = '#define QBA_OWNED 40\n#include "bytes.h"\n#include "misc.h"\n' + context + '\n' + rd('da_spec.h') + b.prototype(t_da) + '''
+/* Round trip of an address attribute at the level of the two verified contracts: the bytes encodeAddress's contract
+   prescribes (EA_BYTE, the same macro its postcondition uses), handed to decodeAddress's contract, give back address and port. */
+void lemma_address_roundtrip(void) {
+  quint16 type, port; QHostAddress a; __CPROVER_assume(a.proto == 0 || a.proto == 1);
+  int xn, xo; __CPROVER_assume(0 <= xn && xn <= 32 && 0 <= xo && xo <= QBA_MAX); char *xs = malloc(QBA_MAX + 32); __CPROVER_assume(xs != 0);
+  QByteArray xid; QByteArray_ctor(&xid); xid.n = xn; xid.vlen = xn; xid.src = xs; xid.off = xo;
+  g_i = nondet_int(); __CPROVER_assume(0 <= g_i && g_i < 16);
+  char B[24]; ''' + unroll + '''
+  QByteArray buf; QByteArray_ctor(&buf); buf.n = a.proto == 0 ? 12 : 24; buf.vlen = buf.n; buf.src = B;
+  QDataStream st; QDataStream_ctor_ro(&st, &buf); st.pos = 4;      /* the caller has consumed type and length */
+  QHostAddress out; quint16 outport;
+  bool ok = decodeAddress(&st, (quint16)(a.proto == 0 ? 8 : 20), &out, &outport, &xid);
+  __CPROVER_assert(ok, "[lemma.encoded_address_attribute_is_accepted]");
+  __CPROVER_assert(outport == port, "[lemma.port_round_trips_plain_and_xored]");
+  __CPROVER_assert(out.proto == a.proto && (a.proto != 0 || out.v4 == a.v4), "[lemma.ipv4_address_round_trips_plain_and_xored]");
+  __CPROVER_assert(a.proto != 1 || out.v6.c[g_i] == a.v6.c[g_i], "[lemma.ipv6_address_round_trips_plain_and_xored]");
+  __CPROVER_assert(st.pos == buf.n, "[lemma.attribute_consumed_exactly]");
+}
+'''
+    f = b.write('lemma_address.c', c)
+    p = Proof('lemma_address_roundtrip', f, 'lemma_address_roundtrip', enforce=None, replace=['decodeAddress'], kind='complete', loop_contracts=False,
+              include_dirs=inc, timeout=600, note='uses only the contracts of encodeAddress (EA_BYTE) and decodeAddress; every address, port, type and transaction id')
+    p.expect_post = 5
+    proofs.append(p)
+    alltext += c
     # ---------------------------------------------------------------- setBodyLength
     c = '#include "bytes.h"\n' + context + '\n' + t_sbl + '''
 void h_setBodyLength(void) { QByteArray b; qint16 len; setBodyLength(&b, len); }
